@@ -53,6 +53,8 @@ public:
 
     uint8_t getCrc() const;
 
+    static bool isValidPayload(const uint8_t* data, const size_t size);
+
 protected:
     const Header* getHeader() const;
     Header* getHeader();
